@@ -373,6 +373,49 @@ def _fromiter(top):
     return out
 
 
+def _polydirect(top):
+    """mpt_iterator_poly called directly: with and without grid data, every op sequence (reads before a reset
+    included: the cached value must not survive it)"""
+    out = []
+    descs = ["1 0 0 : -4", "2 1", "1", None, "0.5 -1 2 : 1 0.5", "x", ""]
+    for di, d in enumerate(descs):
+        for n in ("none", "0", "7"):
+            create = "it poly %s %s" % (n, "null" if d is None else H(d))
+            for k in range(0, top + 2):
+                for seq in itertools.product("raz", repeat=k):
+                    lines, ns = _opseq_lines(seq, True)
+                    out.append(("polyd:%d:%s:%s" % (di, n, "".join(seq)),
+                                ["it begin", create] + lines + ["it xvalue", "it reset", "it xvalue", "it walk 4", "it reset", "it walk 3",
+                                                                "it clone"]))
+    return out
+
+
+EXTREME = [
+    "range(0 inf)", "range(-inf 0)", "range(0 1 : inf)", "range(nan 1)", "range(0 1 : nan)", "range(-1.7e308 1.7e308)",
+    "range(-1.7e308 1.7e308 : 1e307)", "lin(4 : -1.7e308 1.7e308)", "lin(4 : 0 inf)", "lin(4 : -inf 0)", "lin(4 : nan 1)",
+    "lin(4 : 0 nan)", "lin(4 : -9e307 9e307)", "lin(4 : -8e307 8e307)", "lin(4 : 1e309 2)", "lin(4 : 0 1.7e308)",
+    "lin(2 : -1e308 1e308)", "fact(3:2:nan)", "fact(3:2:4:nan)", "fact(3:nan)", "fact(3:inf)", "fact(3:2:inf)", "fact(3:2:4:inf)",
+    "fact(3:2:4:-inf)", "fac(3:1e308:1e10)", "fac(3:1e-320)", "fac(3:2:1e-320)", "fac(3:1e400)", "lin(4 : 0 1)", "fac(3:2)",
+    "Lin(4 : INF 1)", "range(0 Infinity)", "lin(4 : NaN 1)", "lin(4 : 0 -nan)",
+]
+
+
+def _extreme():
+    lines = ["it begin"] + ["it xcreate " + H(d) for d in EXTREME]
+    return [("extreme", lines)]
+
+
+def _words(top):
+    out = []
+    for si, (text, sep, n) in enumerate(STRINGS):
+        create = "it string %s %s" % ("null" if text is None else H(text), "null" if sep is None else H(sep))
+        for k in range(0, top + 2):
+            for seq in itertools.product("oar", repeat=k):
+                lines = [{"o": "it word", "a": "it advance", "r": "it xvalue"}[o] for o in seq]
+                out.append(("word:%d:%s" % (si, "".join(seq)), ["it begin", create] + lines + ["it word", "it advance", "it word", "it reset", "it word", "it walk 5"]))
+    return out
+
+
 def _consume():
     out = []
     srcs = [("it create " + H("1 2 3"), True), ("it create " + H("1 x 3"), True), ("it create " + H("lin(2 : 0 1)"), True),
@@ -393,7 +436,7 @@ def _consume():
 
 def scripts(tier, seed, scale=1):
     top = 3 if tier == "quick" else 4
-    return (_exhaustive(top) + _strings(top) + _buffers(top) + _fromiter(top) + _consume() + _boundary()
+    return (_exhaustive(top) + _strings(top) + _buffers(top) + _fromiter(top) + _polydirect(top) + _extreme() + _words(top) + _consume() + _boundary()
             + _random(tier, seed, scale))
 
 
